@@ -19,14 +19,17 @@ TraceInit ==
 
 Silent ==
   /\ \/ FeederNext \/ FeederWaitOver \/ Closer \/ CollectorWake \/ CollectorCtx \/ CollectorClosed \/ CollectorRet \/ CallerCancel \/ Tick
-     \/ \E w \in Workers : \/ FeedSend(w) \/ WorkerExit(w) \/ SendConnRecv(w) \/ SendErrDrop(w) \/ SendErrRecv(w)
+     \/ \E w \in Workers : \/ FeedSend(w) \/ WorkerExit(w) \/ WorkerCtx(w) \/ SendConnRecv(w) \/ SendErrDrop(w) \/ SendErrRecv(w)
                             \/ (wpc[w] = "got" /\ oc[wt[w]].kind = "rerr" /\ WorkerStart(w))
   /\ UNCHANGED <<l, retSeen>>
 
 ObsStart ==
   /\ Has /\ Ev.e = "start" /\ now = Ev.t
-  /\ \E w \in Workers : wpc[w] = "got" /\ wt[w] = Ev.i /\ oc[wt[w]].kind # "rerr" /\ WorkerStart(w)
-  /\ Ev.c = done
+  /\ \E w \in Workers : /\ wpc[w] = "ctx" /\ wt[w] = Ev.i /\ WorkerStart(w)
+                        \* ctx.Err() sampled under the log mutex: a context created after the Dial context ended is dead at once;
+                        \* one created before it may lag behind for the rest of the instant in which the Dial context ended
+                        /\ (Ev.c => done)
+                        /\ (~Ev.c => (~done \/ (wlive[w] /\ doneAt = now)))
   /\ l' = l + 1 /\ UNCHANGED retSeen
 
 ObsEnd ==
@@ -64,7 +67,7 @@ ObsReset ==
        /\ now' = 0 /\ pcancel' = FALSE /\ done' = FALSE
        /\ fpc' = "next" /\ fi' = 1 /\ ftimer' = 0 /\ tclosed' = FALSE
        /\ wpc' = [w \in W |-> IF w <= sc.K THEN "idle" ELSE "off"]
-       /\ wt' = [w \in W |-> 0] /\ wstart' = [w \in W |-> 0]
+       /\ wt' = [w \in W |-> 0] /\ wstart' = [w \in W |-> 0] /\ wlive' = [w \in W |-> TRUE] /\ doneAt' = -1
        /\ eclosed' = FALSE /\ mpc' = "select" /\ errs' = 0 /\ result' = "none"
        /\ cstat' = [i \in 1..sc.n |-> "none"]
        /\ startedLive' = 0 /\ lastStartIdx' = 0 /\ orderOK' = TRUE /\ earlyFeeds' = 0 /\ lateCancelledOK' = TRUE
